@@ -5,7 +5,10 @@ use std::panic::{catch_unwind, AssertUnwindSafe};
 pub mod c03;
 pub mod c10;
 pub mod c12;
+pub mod c14;
 pub mod common;
+pub mod issue;
+pub mod c01;
 
 /// Start-up assertions about the build the harness measures (DESIGN.md section 4).
 pub fn selfcheck() {
@@ -34,9 +37,11 @@ pub fn outcome_total<T>(f: impl FnOnce() -> T, show: impl FnOnce(T) -> Value) ->
 
 pub fn generate(id: &str, thorough: bool, seed: u64, em: &mut Emitter) {
     match id {
+        "C01" => c01::generate(thorough, seed, em),
         "C03" => c03::generate(thorough, seed, em),
         "C10" => c10::generate(thorough, seed, em),
         "C12" => c12::generate(thorough, seed, em),
+        "C14" => c14::generate(thorough, seed, em),
         _ => panic!("unknown property {}", id),
     }
 }
@@ -45,6 +50,7 @@ pub fn execute(kind: &str, input: &Value) -> Value {
     match kind {
         "split" => c10::exec_split(input),
         "verify" => common::exec_verify(input),
+        "issue" => issue::exec_issue(input),
         _ => json!({"harness_error": format!("unknown kind {}", kind)}),
     }
 }
